@@ -825,3 +825,46 @@ def _fit_sets_normaliser(B):
         out.append((f"{clsname}:the-final-write-is-unconditional", bool(idx) and not any(
             isinstance(st, (ast.Return,)) for st in body[:idx[-1]])))
     return out
+
+
+# ----------------------------------------------------------------------------- MUSE: predictions are the inner classifier's on the bag of words
+MUSEF = "sktime/classification/dictionary_based/_muse.py"
+
+
+def _muse_inputs(method):
+    def inputs(B, case):
+        I = B.I
+        ok, cls = I.mod_global(I.src.module("sktime.classification.dictionary_based._muse"), "MUSE")
+        obj = SObj(cls)
+        X = B.opaque("X (panel)")
+        bag = B.opaque("bag of words")
+        clf = B.abstract("fitted logistic regression")
+        n, C = B.int("n_instances", 1), B.int("n_classes", 2)
+        labels_out = B.arr("inner_labels", dtype="int", shape=[n])
+        proba_out = B.arr("inner_proba", dtype="real", shape=[n, C])
+        out = labels_out if method == "predict" else proba_out
+        clf.results = {"predict": lambda I2, o, ev: labels_out, "predict_proba": lambda I2, o, ev: proba_out}
+        calls = []
+
+        def tw(I2, args, kwargs):
+            calls.append(list(args))
+            return bag
+        obj.attrs.update(_is_fitted=True, clf=clf, _transform_words=_native(tw))
+        obj.ghost = dict(bag=bag, clf=clf, out=out, calls=calls, X=X, method=method)
+        return {"self": obj, "X": X}
+    return inputs
+
+
+def _muse_post(A, r):
+    g = A.self.ghost
+    evs = [e for e in trace() if e.obj is g["clf"]]
+    return len(evs) == 1 and evs[0].method == g["method"] and len(evs[0].args) == 1 and evs[0].arg(0) is g["bag"] and \
+        r is g["out"] and len(g["calls"]) == 1 and g["calls"][0][0] is A.X
+
+
+for _m in ("predict", "predict_proba"):
+    contract(f"{MUSEF}::MUSE.{_m}", "C17,C12", cases=["-"], inputs=_muse_inputs(_m),
+             ensures=[(f"returns-the-fitted-inner-classifiers-{_m}-on-the-words-of-X", _muse_post, {"modular": False})],
+             frame=lambda A: [A.self, A.X],
+             notes=["the inner scikit-learn classifier returns labels of the training label set / probabilities in classes_ order "
+                    "(sklearn, assumed); the bag of words (_transform_words) is abstract"])
